@@ -1,4 +1,5 @@
 import CandidModel.Proofs.Wire
+import CandidModel.Proofs.HeaderCanon
 import CandidModel.Proofs.ValRound
 /-
   C03 — Every encoded message is well-formed per the binary format of the spec.
@@ -119,5 +120,16 @@ theorem argument_sequence_roundtrip (env : Env) (fuel : Nat) (ts : List Ty) (vs 
 example : canon [("L", .opt (.record (.cons (.id 0) (.prim .nat8) (.cons (.id 1) (.var "L") .nil))))] 10
     (.opt (.record [(.id 0, .nat8 7), (.id 1, .opt (.record [(.id 0, .nat8 9), (.id 1, .none)]))])) (.var "L") = true := by
   decide
+
+/-- **Every header the specification's parser accepts is canonical**: the table as written has one entry per
+announced index, every entry is a composite constructor (opt, vec, record, variant, func, service or a future type)
+over primitives and indices below the table length, record and variant ids are strictly ascending, service methods
+strictly ascending by name, and the argument types are primitives or such indices.  (A message the encoder produces
+is read back by this parser in every run of the check; whatever it reads back has this form.) -/
+theorem accepted_header_is_canonical (bs : Bytes) (h : Header) (body : Bytes) (hp : parseHeader bs = .ok (h, body)) :
+    (∀ p ∈ h.rawTable, consOk h.rawTable.length p.2 ∧ consSorted p.2) ∧
+    (∀ i, i < h.rawTable.length → (h.rawTable.map (·.1))[i]? = some (tableName i)) ∧
+    (∀ a ∈ h.args, idxOk h.rawTable.length a) :=
+  parseHeader_canonical bs h body hp
 
 end Candid.Props.C03
